@@ -615,6 +615,40 @@ func c19Gen(r *Run) {
 			}
 		}
 	}
+	// long-tailed input for a term aggregation with a size (seed C19-l: a frequency table capped at
+	// 10000 distinct terms forgets the occurrences counted before an eviction): 40 'warm' values seen once
+	// among 10100 distinct fillers and four more times after them; the exact top-50 holds every warm value
+	// with frequency 5
+	{
+		verts := []interface{}{}
+		add := func(x string) {
+			verts = append(verts, map[string]interface{}{"gid": fmt.Sprintf("t%05d", len(verts)), "label": "A",
+				"data": Tag(map[string]interface{}{"x": x})})
+		}
+		for i := 0; i < 3; i++ {
+			add("early")
+		}
+		for j := 0; j < 40; j++ {
+			add(fmt.Sprintf("warm%02d", j))
+		}
+		for i := 0; i < 10100; i++ {
+			add(fmt.Sprintf("u%05d", i))
+		}
+		for k := 0; k < 4; k++ {
+			for j := 0; j < 40; j++ {
+				add(fmt.Sprintf("warm%02d", j))
+			}
+		}
+		op := map[string]interface{}{"op": "agg", "verts": verts, "edges": []interface{}{},
+			"pre": []interface{}{map[string]interface{}{"v": []interface{}{}}},
+			"aggs": []interface{}{
+				map[string]interface{}{"kind": "term", "field": "x", "size": 50, "name": "a"},
+				map[string]interface{}{"kind": "count", "name": "b"},
+				map[string]interface{}{"kind": "term", "field": "x", "size": 1, "name": "c"}}}
+		s.run(r, op)
+		r.Count("case:term-long-tail")
+		r.NonTrivial("term-long-tail")
+	}
 	// the t-digest behind the percentile aggregation against the model Grip.C19.Digest (c19_digest.go)
 	c19DigestGen(r)
 }
